@@ -965,6 +965,8 @@ class Blob(ShaFile):
     @chunked.setter
     def chunked(self, chunks: list[bytes]) -> None:
         self._chunked_text = chunks
+        # The content changed: drop the cached SHA so that id/sha() rehash it.
+        self._sha = None
 
     def _serialize(self) -> list[bytes]:
         assert self._chunked_text is not None
